@@ -28,7 +28,7 @@ Print Assumptions C06_split_ws_joined.
    newline conventions of the reader (StringIO / file in text mode) *)
 Definition dimacs_roundtrip_statement : Prop :=
   forall u h names n F, valid n F -> printable n -> printable (len F) ->
-    parse_dimacs u (print_dimacs h names n F) = Ok n F.
+    parse_dimacs u (print_dimacs h names n F) = DOk n F.
 
 (* proved for headers and names without a line break inside a field
    (with or without header, with or without names, empty formula, empty clauses,
@@ -36,7 +36,7 @@ Definition dimacs_roundtrip_statement : Prop :=
 Theorem dimacs_roundtrip_partial : forall u h names n F,
   valid n F -> printable n -> printable (len F) ->
   header_ok h = true -> names_ok names = true ->
-  parse_dimacs u (print_dimacs h names n F) = Ok n F.
+  parse_dimacs u (print_dimacs h names n F) = DOk n F.
 Proof. exact dimacs_roundtrip_proved. Qed.
 Print Assumptions dimacs_roundtrip_partial.
 
@@ -45,8 +45,8 @@ Example dimacs_roundtrip_nonvacuous :
   let names := Some [lit "x_{1,2}"; lit "c p cnf 1 1"; lit ""] in
   let F := [[1; -2]; []; [3]; [-3; -3; 1]] in
   valid 4 F /\ printable 4 /\ header_ok h = true /\ names_ok names = true /\
-  parse_dimacs false (print_dimacs h names 4 F) = Ok 4 F /\
-  parse_dimacs true (print_dimacs None None 0 []) = Ok 0 [].
+  parse_dimacs false (print_dimacs h names 4 F) = DOk 4 F /\
+  parse_dimacs true (print_dimacs None None 0 []) = DOk 0 [].
 Proof.
   cbv zeta. split; [|split; [apply printable_million; vm_compute; discriminate | vm_compute; auto]].
   split; [discriminate|]. unfold lit_in.
@@ -68,7 +68,7 @@ Print Assumptions dimacs_header_newline_refuted.
 (* ... and so does a lone carriage return when the text is read from a file,
    or a line break in a variable name *)
 Theorem dimacs_header_cr_refuted : exists h,
-  parse_dimacs false (print_dimacs (Some h) None 1 [[1]]) = Ok 1 [[1]] /\
+  parse_dimacs false (print_dimacs (Some h) None 1 [[1]]) = DOk 1 [[1]] /\
   parse_dimacs true (print_dimacs (Some h) None 1 [[1]]) = Err DataBeforeSpec 2.
 Proof. exists [(lit "description", [ "x"%char; CR; "y"%char ])]. vm_compute. auto. Qed.
 Print Assumptions dimacs_header_cr_refuted.
@@ -119,7 +119,7 @@ Print Assumptions print_shape_refuted.
    clauses returned, with nothing left over; every literal is within +-[1..n].
    Every other outcome is `Err` = ValueError: `result` has no third constructor. *)
 Theorem parse_sound : forall u t n F,
-  parse_dimacs u t = Ok n F ->
+  parse_dimacs u t = DOk n F ->
   exists sl m, spec_lines (read_lines u t) = [sl] /\ parse_spec sl = Some (n, m) /\
                m = len F /\ 0 <= n /\
                clauses_written (read_lines u t) = Some (F, []) /\
@@ -129,7 +129,7 @@ Print Assumptions parse_sound.
 
 Example parse_sound_nonvacuous :
   parse_dimacs true (lit "c hi" ++ [CR; LF] ++ lit "p cnf 3 2" ++ [LF] ++ lit " 1 -3" ++ [LF] ++ lit "0 +2 0")
-  = Ok 3 [[1; -3]; [2]].
+  = DOk 3 [[1; -3]; [2]].
 Proof. vm_compute. reflexivity. Qed.
 
 (* texts that must be refused are refused *)
